@@ -137,6 +137,14 @@ theorem opsWeight_tail (ops : List Op) : opsWeight ops.tail ≤ opsWeight ops :=
   | nil => simp
   | cons a l => rw [List.tail_cons, opsWeight_cons]; omega
 
+theorem opsWeight_drop (ops : List Op) (n : Nat) : opsWeight (ops.drop n) ≤ opsWeight ops := by
+  induction n generalizing ops with
+  | zero => simp
+  | succ n ih =>
+    cases ops with
+    | nil => simp
+    | cons a l => rw [List.drop_succ_cons, opsWeight_cons]; have := ih l; omega
+
 theorem opsWeight_filter (ops : List Op) (p : Op → Bool) : opsWeight (ops.filter p) ≤ opsWeight ops := by
   induction ops with
   | nil => simp
@@ -180,6 +188,9 @@ theorem stepOp_work (scope : LockScope) (s : State) (t : Nat) (ops : List Op) (o
       have : o = t := by simpa using hr
       simp [hl, this, upd, Thread.work, Op.weight]
   case release => split <;> simp [upd, Thread.work, Op.weight]
+  case peek =>
+    have hd := opsWeight_drop ops 3
+    split <;> simp [upd, Thread.work, Op.weight, *] <;> omega
   case «open» =>
     split
     · simp [upd, Thread.work, Op.weight]
@@ -309,6 +320,30 @@ theorem run_progress (scope : LockScope) (s : State) (l : List Nat) (n u : Nat)
       exact ih s hn hm' hr
 
 
+/-- only the completion of a connection attempt installs a socket: every other operation leaves `client.socket`
+    alone or closes it -/
+theorem stepOp_sock (scope : LockScope) (s : State) (t : Nat) (th : Thread) (ops : List Op) (op : Op)
+    (h1 : op ≠ .open) (h2 : op ≠ .iopen) :
+    (stepOp scope s t th ops op).sock = s.sock ∨ (stepOp scope s t th ops op).sock = none := by
+  cases op <;> simp only [stepOp, raiseOut] <;> (try exact absurd rfl h1) <;> (try exact absurd rfl h2) <;>
+    (repeat' split) <;> first | exact Or.inl rfl | exact Or.inr rfl | simp_all
+
+theorem step_new_socket (scope : LockScope) (s : State) (t c : Nat)
+    (h : (step scope s t).sock = some c) (hne : s.sock ≠ some c) :
+    ∃ ops, (s.threads t).ops = .open :: ops ∨ (s.threads t).ops = .iopen :: ops := by
+  unfold step at h
+  split at h
+  · split at h
+    · exact absurd h hne
+    · exact absurd h hne
+  · rename_i op ops hops
+    by_cases h1 : op = .open
+    · subst h1; exact ⟨ops, Or.inl hops⟩
+    · by_cases h2 : op = .iopen
+      · subst h2; exact ⟨ops, Or.inr hops⟩
+      · cases stepOp_sock scope s t (s.threads t) ops op h1 h2 with
+        | inl e => rw [e] at h; exact absurd h hne
+        | inr e => rw [e] at h; cases h
 theorem runnable_of_head (scope : LockScope) (s : State) (t : Nat) (op : Op) (l : List Op)
     (h : (s.threads t).ops = op :: l) (hne : op ≠ .acquire) (hne' : op ≠ .cacquire) : runnable scope s t = true := by
   cases op <;> simp [runnable, h] at hne hne' ⊢
